@@ -698,7 +698,8 @@ def random_method_case(draw):
         args = [draw(st.one_of(_scalars(), _container(1))) for _ in range(draw(st.integers(0, 2)))]
         kwargs = draw(st.one_of(st.just({}), st.just({}), st.fixed_dictionaries({"z": _scalars()}), st.just({"reverse": True})))
     case = {"kind": "method", "async": draw(st.booleans()), "data": data, "method": m, "args": args, "kwargs": kwargs,
-            "route": draw(st.sampled_from(ROUTE_KEYS)), "nest": draw(st.sampled_from(NEST_KEYS))}
+            "route": draw(st.sampled_from(ROUTE_KEYS if tname == "dict" else [r for r in ROUTE_KEYS if r not in DICT_GLOBAL_ROUTES])),
+            "nest": draw(st.sampled_from(NEST_KEYS))}
     if draw(st.integers(0, 3)) == 0:
         case["pre"] = draw(st.lists(st.sampled_from(["sandbox", "plain", "immutable"]), min_size=1, max_size=2))
     if draw(st.integers(0, 3)) == 0:
